@@ -384,3 +384,31 @@ def export_tree(mapping):
         emit(n, 0)
     # single Einsum: one branch holding everything below the outermost holders
     return [dict(x, br=(1 if x["kind"] == "C" else x["br"])) for x in out]
+
+
+def export_tree_nested(mapping):
+    """LoopTree -> nested node lists for spec/FusedTree.tla (holders get ids; Sequential -> kind Q)."""
+    counter = [0]
+
+    def conv(nodes):
+        out = []
+        for n in nodes:
+            k = type(n).__name__
+            if k in ("Storage", "Toll"):
+                for t in n.tensors:
+                    counter[0] += 1
+                    out.append({"kind": "S", "id": counter[0], "mem": str(n.component), "t": str(t)})
+            elif k == "Temporal":
+                out.append({"kind": "T", "rv": str(n.rank_variable), "tile": int(n.tile_shape)})
+            elif k == "Compute":
+                out.append({"kind": "C", "einsum": str(n.einsum)})
+            elif k == "Reservation":
+                continue
+            elif k in ("Sequential",):
+                out.append({"kind": "Q", "children": [conv(list(c.nodes) if hasattr(c, "nodes") else [c]) for c in n.nodes]})
+            elif k == "Nested":
+                out += conv(list(n.nodes))
+            else:
+                raise ValueError("unsupported node " + k)
+        return out
+    return conv(list(mapping.nodes))
